@@ -129,10 +129,47 @@ def header_key(raw):
     hlen = (16 + flen + 7) // 8 * 8
     fl, _ = unmarshal(raw, 12, "a(yv)", le)
     fields = {}
+    sig = ""
     for code, var in fl:
+        if code == 8:
+            sig = var.val
         if 1 <= code <= 9 and code != F_SENDER and code not in fields:
             fields[code] = repr(var.val)
-    return (raw[0], raw[1], raw[2], serial, tuple(sorted(fields.items())), raw[hlen:hlen + body_len].hex())
+    body = raw[hlen:hlen + body_len]
+    # the byte order is not part of the key: a message whose arguments the driver has iterated (e.g. Introspect, RequestName sent
+    # big-endian) is byte-swapped in place by libdbus before the monitor's copy goes out
+    try:
+        vals, p = [], 0
+        for t in rawbus.split_sig(sig):
+            v, p = unmarshal(body, p, t, le)
+            vals.append(repr(v))
+        bkey = "|".join(vals) if p == len(body) or not sig else body.hex()
+    except Exception:
+        bkey = body.hex() if le else "be:" + body.hex()
+    return (raw[1], raw[2], serial, tuple(sorted(fields.items())), bkey)
+
+
+def msg_part_of(rx, want):
+    """the bytes after the handshake replies (whose normalised form is `want`)"""
+    rx = bytes(rx)
+    m = re.match(rb"(?:(?:OK [0-9a-f]{32}|REJECTED[^\r]*|ERROR[^\r]*|DATA[^\r]*|AGREE_UNIX_FD)\r\n)*", rx)
+    return rx[m.end():] if m else rx
+
+
+def replied_serials(data):
+    """REPLY_SERIALs of the method returns / errors in a byte string of whole D-Bus messages (a trailing partial one is ignored)"""
+    out, off = set(), 0
+    while len(data) - off >= 16:
+        try:
+            m, n = rawbus.parse_message(data[off:])
+        except Exception:
+            break
+        if m is None:
+            break
+        if m.mtype in (METHOD_RETURN, ERROR) and m.fields.get(F_REPLY_SERIAL) is not None:
+            out.add(m.fields.get(F_REPLY_SERIAL))
+        off += n
+    return out
 
 
 def norm_auth(b):
@@ -379,7 +416,7 @@ def parse_groups(line):
     return groups
 
 
-def run_script(bus, script, groups, canaries, blast_spec=None, noread=(), strict=False, throttle_spec=None, idle_check=False):
+def run_script(bus, script, groups, canaries, blast_spec=None, noread=(), strict=False, throttle_spec=None, idle_check=False, idle_interval=0.3):
     """script: list of ("C", c) / ("W", c, bytes) / ("X", c) / ("S", ms); groups: parse_groups(model line);
     canaries: list of byte strings planted in messages.  Returns dict(problems=[(kind, text)], observed=[...], stats)"""
     socks, names, gone_expected = {}, {}, set()
@@ -414,7 +451,7 @@ def run_script(bus, script, groups, canaries, blast_spec=None, noread=(), strict
         elif kind == "S":
             time.sleep(ev[1] / 1000.0)
         # ---- what the model expects of this step
-        exp_events, reads, exp_noreply, exp_actfail, exp_actok = [], set(), [], [], []
+        exp_events, reads, exp_noreply, exp_actfail, exp_actok, exp_self = [], set(), [], [], [], []
         for tag, toks in grp:
             if tag[0] == "R":
                 reads.add(int(tag[1:]))
@@ -437,6 +474,8 @@ def run_script(bus, script, groups, canaries, blast_spec=None, noread=(), strict
                     exp_events.append(("noc", (bytes.fromhex(p[2]).decode("latin-1"), c, int(p[3]))))
                 elif p[0] == "noreply" and strict:
                     exp_noreply.append((c, int(p[2])))
+                elif p[0] == "self":
+                    exp_self.append((c, int(p[2])))
                 elif p[0] == "limit" and strict:
                     exp_events.append(("limit", int(p[2])))
                 elif p[0] == "actfail" and strict:
@@ -494,7 +533,7 @@ def run_script(bus, script, groups, canaries, blast_spec=None, noread=(), strict
                 pass
             else:
                 got_events.append(("seen", header_key(m.raw)))
-        observed.append(["%s:%s" % (k, v if k != "seen" else "%d/%s" % (v[3], v[5][:16])) for k, v in got_events] + ["noreply:%s:%s" % x for x in got_noreply])
+        observed.append(["%s:%s" % (k, v if k != "seen" else "%d/%s" % (v[2], v[4][:16])) for k, v in got_events] + ["noreply:%s:%s" % x for x in got_noreply])
         ok_seq = len(got_events) == len(exp_events)
         if ok_seq:
             for (gk, gv), (ek, evv) in zip(got_events, exp_events):
@@ -509,8 +548,8 @@ def run_script(bus, script, groups, canaries, blast_spec=None, noread=(), strict
                 elif gk == "bye":
                     ok_seq = ok_seq and names.get(evv) == gv
         if not ok_seq:
-            exp_s = [k if k != "seen" else "seen#%d" % v[3] for k, v in exp_events]
-            got_s = [k if k != "seen" else "seen#%d" % v[3] for k, v in got_events]
+            exp_s = [k if k != "seen" else "seen#%d" % v[2] for k, v in exp_events]
+            got_s = [k if k != "seen" else "seen#%d" % v[2] for k, v in got_events]
             extra_seen = [g for g in got_events if g[0] == "seen" and g not in exp_events]
             extra_limit = [g for g in got_events if g[0] == "limit" and g not in exp_events]
             if extra_limit:
@@ -518,7 +557,7 @@ def run_script(bus, script, groups, canaries, blast_spec=None, noread=(), strict
                         "occupies its slot (per-user / completed count, match rules)?  expected %s got %s" % (where, [g[1] for g in extra_limit][:4], exp_s[:12], got_s[:12]))
             elif extra_seen:
                 problem("violation", "%s: a monitor was shown %d message(s) of a hostile sender that the model never dispatches (invalid, or after an invalid one): serials %s; expected %s got %s"
-                        % (where, len(extra_seen), [g[1][3] for g in extra_seen][:6], exp_s[:12], got_s[:12]))
+                        % (where, len(extra_seen), [g[1][2] for g in extra_seen][:6], exp_s[:12], got_s[:12]))
             else:
                 problem("mismatch", "%s: monitor trace differs from the model: expected %s got %s" % (where, exp_s[:14], got_s[:14]))
         got_noreply = [(ident(d), sr) for d, sr in got_noreply]
@@ -558,6 +597,19 @@ def run_script(bus, script, groups, canaries, blast_spec=None, noread=(), strict
                 problem("mismatch", "%s: the daemon closed connection %d, the model keeps it" % (where, c))
             if c in noread and want and len(got) >= len(want):
                 h.mute = True        # handshake done: from now on this client reads nothing
+            mine = [sr for cc, sr in exp_self if cc == c]
+            if mine and not h.mute and not h.eof and c not in gone_expected:
+                # answers of the connection's own libdbus side (Peer built-ins, UnknownMethod fallback) arrive on the client's socket
+                t_end = time.time() + WAIT
+                while True:
+                    rs = replied_serials(msg_part_of(h.rx, want))
+                    missing = [sr for sr in mine if sr not in rs]
+                    if not missing or time.time() > t_end or h.eof:
+                        break
+                    select.select([h.s], [], [], 0.05)
+                    h.poll()
+                if missing and not h.eof:
+                    problem("violation", "%s: connection %d got no answer to its message(s) with serial %s, which the bus's own connection object has to answer (Peer built-in / UnknownMethod fallback)" % (where, c, missing[:4]))
         if any(k == "violation" for k, _ in problems):
             break
     # ---- concurrent flood: not compared with the model, only service level and survival are observed
@@ -617,7 +669,7 @@ def run_script(bus, script, groups, canaries, blast_spec=None, noread=(), strict
             break
     if idle_check and not problems and bus.d.alive():
         # the resource side: with every client gone or idle the daemon must be asleep in poll()
-        frac = bus.idle_cpu(0.3)
+        frac = bus.idle_cpu(idle_interval)
         if frac is not None and frac > SPIN_FRACTION:
             frac = bus.idle_cpu(0.6)          # once more, longer: a neighbour's load must not be mistaken for a spin
         stats["idle_cpu_max"] = max(stats.get("idle_cpu_max", 0.0), frac or 0.0)
